@@ -2,6 +2,7 @@ package main
 
 import (
 	"fmt"
+	"go/ast"
 	"go/types"
 	"os"
 	"regexp"
@@ -44,13 +45,60 @@ func foldString(t *Term) (string, bool) {
 	return "", false
 }
 
+// compiledPattern resolves a *regexp.Regexp term to its constant pattern: regexp.MustCompile(<const>) directly, or a
+// package-level variable initialised that way and never reassigned.
+func compiledPattern(t *Term) (string, bool) {
+	if t == nil {
+		return "", false
+	}
+	if t.IsCall("regexp.MustCompile") && len(t.Args) == 1 {
+		return foldString(t.Args[0])
+	}
+	if t.Op == "gval" && progForFacts != nil {
+		pp, name := splitGlobal(t.Name)
+		pk := progForFacts.All[pp]
+		if pk == nil {
+			return "", false
+		}
+		obj := pk.Types.Scope().Lookup(name)
+		pat, found, assigns := "", false, 0
+		for _, f := range pk.Syntax {
+			ast.Inspect(f, func(nd ast.Node) bool {
+				switch x := nd.(type) {
+				case *ast.ValueSpec:
+					for i, id := range x.Names {
+						if pk.TypesInfo.Defs[id] == obj && i < len(x.Values) {
+							if c, ok := x.Values[i].(*ast.CallExpr); ok && len(c.Args) == 1 {
+								if o := calleeObj(pk.TypesInfo, c); o != nil && objFull(o) == "regexp.MustCompile" {
+									if s, ok := constStr(pk.TypesInfo, c.Args[0]); ok {
+										pat, found = s, true
+									}
+								}
+							}
+						}
+					}
+				case *ast.AssignStmt:
+					for _, l := range x.Lhs {
+						if id, ok := l.(*ast.Ident); ok && pk.TypesInfo.Uses[id] == obj {
+							assigns++
+						}
+					}
+				}
+				return true
+			})
+		}
+		return pat, found && assigns == 0
+	}
+	return "", false
+}
+
 // regexAtom: the atom is a successful match of a constant pattern against subject; returns pattern and subject.
 func regexAtom(t *Term) (string, *Term, bool) {
 	if t == nil {
 		return "", nil, false
 	}
-	if t.IsCall("(*regexp.Regexp).MatchString") && len(t.Args) == 2 && t.Args[0].IsCall("regexp.MustCompile") {
-		if p, ok := foldString(t.Args[0].Args[0]); ok {
+	if t.IsCall("(*regexp.Regexp).MatchString") && len(t.Args) == 2 {
+		if p, ok := compiledPattern(t.Args[0]); ok {
 			return p, t.Args[1], true
 		}
 	}
